@@ -467,7 +467,11 @@ class NetworkGraph(AbstractBaseIR):
         else:
             # --- ODE cascade (gamma kernel or adaptive step size) ---
             if spread is not None and spread > 0:
-                n = max(1, int(round((delay / spread) ** 2)))
+                # as for scalar edges: order round((delay/spread)^2), at least dde_approx; order 0 is a pass-through
+                n = int(round((delay / spread) ** 2))
+                n = n if n > dde_approx else dde_approx
+                if n == 0:
+                    return
             elif dde_approx > 0:
                 n = dde_approx
             else:
